@@ -256,6 +256,15 @@ def run(ck):
         if bad:
             ck.violation("@entropy: %s in %r" % (bad, t), {"mode": "asm", "arch": "z80", "source": t, "harness_case": asm_case("z80", text=t), "expected": "equal within, distinct across"})
             break
+    # @parse S is S written in place, also for the directory that file lookups start in
+    pf = {"/w/main.asm": '@db 1\n@include "sub/p.inc"\n@db 2\n@parse "@incbin \\"d.bin\\""\n', "/w/sub/p.inc": '@parse "@incbin \\"d.bin\\" @include \\"q.inc\\""\n@db 7\n',
+          "/w/sub/d.bin": b"SUB!", "/w/d.bin": b"ROOT", "/w/sub/q.inc": "@db $51\n", "/w/q.inc": "@db $52\n"}
+    pr = AsmResult(run_cases(harness, [asm_case("z80", files=pf)], shards=1)[0])
+    ck.evaluations += 1
+    pw = "OK " + (b"\x01SUB!\x51\x07\x02ROOT").hex()
+    if pr.canon() != pw:
+        ck.violation("@parse text with file lookups inside an included file of another directory: %s, written in place it is %s" % (pr.canon(), pw),
+                     {"mode": "asm", "arch": "z80", "files": {k: (v if isinstance(v, str) else v.hex()) for k, v in pf.items()}, "harness_case": asm_case("z80", files=pf), "expected": pw})
     # the known non-inert cases
     known_cases = [
         ("each-body-expanded-while-collected", '@each XX , { 1 2 }\n@db @string { "<" XX ">" }\n@endeach\n', '@db "<1>"\n@db "<2>"\n'),
